@@ -136,6 +136,9 @@ def run(tier, seed):
     cases = core.Cases(); r.last_cases = cases
     corpus_cases(cases, PROP)
     progs = []
+    # every yield form once, as fixed programs (the random programs below draw the forms by chance)
+    for (kind, src) in proggen.yield_programs():
+        progs.append(("yw_" + kind, "conftest.py", src.text(), src.features))
     for i in range(n):
         src = proggen.gen_program(r.rng)
         text = src.text(crlf=(r.rng.random() < 0.05))
